@@ -27,7 +27,8 @@ type Server struct {
 	// TCPConf is the TCP configuration for this server.
 	TCPConf *TCPConfig
 
-	// UDPConf is the UDP configuration for this server.
+	// UDPConf is the UDP configuration for this server.  It is used by the
+	// plain-DNS and the DNSCrypt servers.
 	UDPConf *UDPConfig
 
 	// Name is the unique name of the server.  Not to be confused with a TLS
